@@ -251,7 +251,13 @@ pub fn run_case(case: &Value, out: &mut Obs) {
         for (i, s) in case.get("steps").and_then(|s| s.as_array()).unwrap_or(&empty).iter().enumerate() {
             let id = node(gets(s, "k"), gets(s, "acc"));
             let attr = attr_id(gets(s, "attr"));
-            let range = gets(s, "range").to_string();
+            // the string sent for [lo, hi]: "lo" or "lo:hi"; other strings ("", "2:1", "1,2", "a") literally
+            let range = if gets(s, "rk") == "one" {
+                let (lo, hi) = (geti(s, "lo"), geti(s, "hi"));
+                if lo == hi { format!("{}", lo) } else { format!("{}:{}", lo, hi) }
+            } else {
+                gets(s, "range").to_string()
+            };
             let before = full(&mut c, &id);
             let r = guard(|| match gets(s, "ev") {
                 "Write" => {
@@ -260,6 +266,16 @@ pub fn run_case(case: &Value, out: &mut Obs) {
                 }
                 _ => read(&mut c, &id, attr, &range),
             });
+            // a Write of Value with an index range is followed by a Read of the same range
+            let follow = gets(s, "ev") == "Write" && gets(s, "attr") == "Value" && !range.is_empty();
+            let (rcls, rvalue) = if follow {
+                match guard(|| read(&mut c, &id, AttributeId::Value as u32, &range)) {
+                    Ok((_, cls, v)) => (cls, v),
+                    Err(_) => ("?", json!({"t": "None", "a": false, "v": []})),
+                }
+            } else {
+                ("", json!({"t": "None", "a": false, "v": []}))
+            };
             let after = full(&mut c, &id);
             let mut o = s.clone();
             let obj = o.as_object_mut().unwrap();
@@ -267,6 +283,9 @@ pub fn run_case(case: &Value, out: &mut Obs) {
             obj.insert("i".into(), json!(i + 1));
             obj.insert("before".into(), before);
             obj.insert("after".into(), after);
+            obj.insert("range".into(), json!(range));
+            obj.insert("rcls".into(), json!(rcls));
+            obj.insert("rvalue".into(), rvalue);
             let failed = r.is_err();
             match r {
                 Ok((st, cls, val)) => {
